@@ -257,6 +257,66 @@ Section Sequential.
     - eapply hinv_prefix; eauto.
   Qed.
 
+  (* ---- a warm cache (the source is exhausted, every element cached): NO restriction on the schedule ---- *)
+  Lemma hstep_warm d st o d' st' : src d = [] -> hstep d st = (o, d', st') -> d' = d.
+  Proof.
+    intros Hs H. destruct st; simpl in H; unfold replay, drain in H; rewrite ?Hs in H;
+      repeat match type of H with
+             | context [if ?c then _ else _] => destruct c
+             | context [match nth_error ?a ?b with _ => _ end] => destruct (nth_error a b)
+             end; injection H as <- <- <-; auto.
+  Qed.
+
+  Definition warm : dstate := {| cache := domain; src := [] |}.
+
+  Record WInv (S : sys) : Prop := {
+    W_d : dom S = warm;
+    W_h : forall h st tr, nth_error (hs S) h = Some (st, tr) -> hinv warm st tr
+  }.
+
+  Lemma warm_dinv : dinv warm.
+  Proof. unfold dinv, warm; simpl. apply app_nil_r. Qed.
+
+  Lemma WInv_step o S : WInv S -> WInv (step o S).
+  Proof.
+    intros [Hd Hh]. destruct o as [|h|h]; simpl.
+    - constructor; simpl; auto. intros k st tr Hk.
+      destruct (Nat.lt_ge_cases k (length (hs S))) as [Hl|Hl].
+      + rewrite nth_error_app1 in Hk by auto. eauto.
+      + rewrite nth_error_app2 in Hk by auto. destruct (k - length (hs S))%nat as [|m]; simpl in Hk.
+        * injection Hk as <- <-. reflexivity.
+        * destruct m; discriminate.
+    - destruct (nth_error (hs S) h) as [[st tr]|] eqn:Eh; [|constructor; auto].
+      rewrite Hd. destruct (hstep warm st) as [[o d'] st'] eqn:Es.
+      assert (d' = warm) by (eapply hstep_warm; eauto).
+      subst d'. destruct (hstep_inv _ _ _ _ _ _ warm_dinv (Hh _ _ _ Eh) Es) as (_ & B & _).
+      constructor; simpl; auto. intros k st2 tr2 Hk. apply nth_error_upd_inv in Hk.
+      destruct Hk as [(-> & E & _)|(Hne & Hk)]; eauto. injection E as -> ->. auto.
+    - destruct (nth_error (hs S) h) as [[st tr]|] eqn:Eh; [|constructor; auto].
+      constructor; simpl; auto. intros k st2 tr2 Hk. apply nth_error_upd_inv in Hk.
+      destruct Hk as [(-> & E & _)|(Hne & Hk)]; eauto.
+      injection E as -> ->. unfold hclose. destruct (live st) eqn:El; eauto.
+      simpl. eapply hinv_prefix; eauto. apply warm_dinv.
+  Qed.
+
+  Lemma run_WInv ops : forall S, WInv S -> WInv (run ops S).
+  Proof.
+    induction ops as [|o ops IH]; intros S I; simpl; auto.
+    unfold run. simpl. apply IH. apply WInv_step; auto.
+  Qed.
+
+  Theorem cache_warm_any_schedule ops h st tr :
+    nth_error (hs (run ops {| dom := warm; hs := [] |})) h = Some (st, tr) ->
+    st <> HFailed /\ (st = HDone -> tr = iter_spec domain) /\ is_prefix tr (iter_spec domain).
+  Proof.
+    intros Hn.
+    assert (I0 : WInv {| dom := warm; hs := [] |}) by (constructor; simpl; auto; intros [|k] ? ? H; discriminate).
+    pose proof (run_WInv ops _ I0) as [Hd Hh]. pose proof (Hh _ _ _ Hn) as Hi. repeat split.
+    - intros ->. exact Hi.
+    - intros ->. exact Hi.
+    - eapply hinv_prefix; eauto. apply warm_dinv.
+  Qed.
+
   (* what a whole sequential evaluation does with a variable: a fresh handle run to exhaustion *)
   Lemma drain_out d o d' st' : drain d = (o, d', st') ->
     match o with OYield _ => live st' = true | OStop => st' = HDone /\ src d' = [] | OErr => st' = HFailed end.
@@ -303,6 +363,19 @@ Section Sequential.
     dinv d -> exhaust (S (S (length domain))) d HNew [] = Some (domain, {| cache := domain; src := [] |}).
   Proof. intros Hd. apply exhaust_inv; simpl; auto. lia. Qed.
 End Sequential.
+
+(* the empty domain: a variable without values stays that way for every handle of every sequential schedule *)
+Corollary cache_sequential_empty ops S' h st tr :
+  seq_run ops (init []) = Some S' -> nth_error (hs S') h = Some (st, tr) -> st <> HFailed /\ tr = [].
+Proof.
+  intros Hr Hn. destruct (cache_sequential [] (NoDup_nil _) ops S' h st tr Hr Hn) as (A & _ & [x Hx]).
+  split; auto. unfold iter_spec in Hx. symmetry in Hx. apply app_eq_nil in Hx. tauto.
+Qed.
+
+Example empty_domain_two_handles :
+  exists S', seq_run [Create; Next 0; Next 0; Create; Next 1; Create; Abandon 2; Create; Next 3]%nat (init []) = Some S' /\
+             hs S' = [(HDone, []); (HDone, []); (HClosed, []); (HDone, [])].
+Proof. eexists. split; vm_compute; reflexivity. Qed.
 
 (* ------------------------------------------------------------------ 2. refutations on the current code *)
 Definition done_values (S : sys) : list (list hv) :=
